@@ -1,3 +1,47 @@
-import Mqtt5V.Basic
+import Mqtt5V.Proofs.Replies
+/-! # C04 — inbound QoS 2 exactly once (waiter core)
+
+A received QoS 2 PUBLISH waits for its PUBREL through a `replies` waiter keyed (PUBREL, packet id).  In the model of
+`replies`: registering a waiter for a key that already has one *replaces* it — the earlier exchange is aborted and can
+no longer deliver its message, so a retransmitted PUBLISH with the same identifier never leads to two deliveries;
+an arriving PUBREL completes exactly the one current waiter; when the session is not resumed, exactly the PUBREL
+waiters are aborted and all other waiters are kept. -/
 namespace Mqtt5V.Props.C04
+open Mqtt5V.Model.Replies Mqtt5V.Proofs.Replies
+
+/-- **a duplicate waiter for the same (code, id) replaces the old one**: the old waiter is aborted, the new one is the only
+one registered for that key afterwards (or is served by a stored reply) -/
+theorem duplicate_waiter_replaced (r : R) (w c p : Nat) (d : Waiter) (hd : r.handlers.find? (sameKey c p) = some d)
+    (hn : KeysUnique r) (hw : d.w ≠ w) :
+    (⟨d.w, .aborted, 0⟩ : Ev) ∈ (step r (.wait w c p)).2 ∧ d ∉ (step r (.wait w c p)).1.handlers := by
+  obtain ⟨hm, hc, hp⟩ := find_sameKey hd
+  have hne := erase_removes_key hn hm
+  have hnot : d ∉ r.handlers.erase d := fun hin => hne (List.mem_map_of_mem hin)
+  simp only [step, hd]
+  constructor
+  · split <;> simp
+  · split
+    · exact hnot
+    · intro hin
+      simp only [List.mem_append, List.mem_singleton] at hin
+      rcases hin with h | h
+      · exact hnot h
+      · exact hw (by rw [h])
+
+/-- when the session is not resumed exactly the PUBREL waiters are aborted; every other waiter is kept -/
+theorem clear_pending_pubrels_exact (r : R) :
+    (step r .clearPubrels).1.handlers = r.handlers.filter (fun h => h.code != PUBREL) ∧
+    (step r .clearPubrels).2 = (r.handlers.filter (fun h => h.code == PUBREL)).map (fun h => ⟨h.w, .aborted, 0⟩) := ⟨rfl, rfl⟩
+
+/-- an arriving PUBREL completes at most one waiter and it is one registered for exactly (PUBREL, that id) -/
+theorem pubrel_completes_its_waiter_only (r : R) (p t : Nat) :
+    (step r (.dispatch PUBREL p t)).2 = [] ∨
+    ∃ h ∈ r.handlers, h.code = PUBREL ∧ h.pid = p ∧ (step r (.dispatch PUBREL p t)).2 = [⟨h.w, .ok, t⟩] := by
+  simp only [step]
+  cases hf : r.handlers.find? (sameKey PUBREL p) with
+  | none => exact Or.inl rfl
+  | some h =>
+    obtain ⟨hm, hc, hp⟩ := find_sameKey hf
+    exact Or.inr ⟨h, hm, hc, hp, rfl⟩
+
 end Mqtt5V.Props.C04
